@@ -239,6 +239,24 @@ class C15Runner:
                                 "dst_dir": "Eject"},
                                {"src": "far", "dst": "r", "dst_idx": [1, 0], "dst_dir": "East"}])
         cases.append(("xy-offset", xo))
+        # derived routing fields spelled out in the description (floogen recomputes them in every mode)
+        for algo in ("XY", "ID", "SRC"):
+            wk = gen_desc.gen_mesh(rng, algo, "axi", m=2, n=2, sides=[], partial_local=False)
+            if wk:
+                wk = json.loads(json.dumps(wk))
+                wk["routing"].update({"num_x_bits": 4, "num_y_bits": 3, "num_id_bits": 6, "addr_offset_bits": 20,
+                                      "num_route_bits": 9, "num_endpoints": 9})
+                cases.append((f"width-keys:{algo}", wk))
+        # source-routed chain, subordinate-only memories at both ends, a manager-only core in between:
+        # the widest router-to-router distance joins two endpoints that never talk
+        ch = gen_desc.base_cfg(rng, "chain", "axi", "SRC", 32)
+        ch.update(endpoints=[{"name": "mem_a", "addr_range": {"start": 0x8000_0000, "size": 0x1_0000}, "sbr_port_protocol": ["axi_out"]},
+                             {"name": "core", "mgr_port_protocol": ["axi_in"]},
+                             {"name": "mem_b", "addr_range": {"start": 0x9000_0000, "size": 0x1_0000}, "sbr_port_protocol": ["axi_out"]}],
+                  routers=[{"name": f"r{k}"} for k in range(4)],
+                  connections=[{"src": "r0", "dst": "r1"}, {"src": "r1", "dst": "r2"}, {"src": "r2", "dst": "r3"},
+                               {"src": "mem_a", "dst": "r0"}, {"src": "core", "dst": "r1"}, {"src": "mem_b", "dst": "r3"}])
+        cases.append(("src-chain", ch))
         # degenerate widths: one column / one row under XY (zero-bit coordinate fields)
         for (m, n, sides) in [(1, 3, ["North"]), (3, 1, ["East"])]:
             c = gen_desc.gen_mesh(rng, "XY", rng.choice(["axi", "narrow-wide"]), m=m, n=n, sides=sides, partial_local=False)
